@@ -584,15 +584,64 @@ def distinct_consumer_tags(w):
     return cs
 
 
+DEFAULTED_FIELDS = set()    # (struct, field, type) triples the harnesses did not know and filled with the type's zero value
+
+
+def zero_value(prog, fty, depth=0):
+    """the value `Default::default()` / a fresh constructor would plausibly give a field the harness knows nothing about: 0, false, None,
+    empty collections; structs of such fields recursively.  None if the type is not one of these."""
+    fty = fty.strip()
+    if fty in INT_TYPES:
+        return Int(0, INT_TYPES[fty][0], INT_TYPES[fty][1])
+    if fty == 'bool':
+        return Bool(False)
+    if fty.startswith('Option<') or fty.startswith('std::option::Option<'):
+        return mk_option()
+    if fty == 'String':
+        return Str(str_lit('""'))
+    if fty.startswith('Vec<u8>'):
+        return ByteVec('defaulted')
+    if fty.startswith('Vec<'):
+        return ListVal()
+    if fty.startswith('HashMap<'):
+        return AssocMap('defaulted')
+    if fty.startswith('Cell<') or fty.startswith('std::cell::Cell<'):
+        inner = zero_value(prog, fty[fty.index('<') + 1:-1], depth + 1)
+        return Agg({0: inner}, 'Cell') if inner is not None else None
+    names = prog.types.fields(fty) if depth < 3 else None
+    ftys = prog.types.field_types(fty) if names else None
+    if names and ftys:
+        vals = {}
+        for i, (n_, t_) in enumerate(ftys):
+            v = zero_value(prog, t_, depth + 1)
+            if v is None:
+                return None
+            vals[i] = v
+        return Agg(vals, fty)
+    return None
+
+
 def mk_struct(prog, ty, **fields):
-    """build a struct value by field *names* (indices come from the scraped declaration, so a reordering or
-    a new field in /repo is noticed instead of silently mis-wired)"""
+    """build a struct value by field *names* (indices come from the scraped declaration, so a reordering or a renamed field in /repo is
+    noticed instead of silently mis-wired).  Fields the harness does not know (added by a later change to /repo) get the zero value of
+    their type - counters at 0, flags false, options None - and are recorded in the evidence."""
     names = prog.types.fields(ty)
     if names is None:
         raise Unsupported(f"struct {ty} not found in the sources")
-    if set(names) != set(fields):
-        raise Unsupported(f"struct {ty} has fields {names}, harness expected {sorted(fields)}")
-    return Agg({names.index(k): v for k, v in fields.items()}, ty.split('::')[-1] if '::' not in ty else ty)
+    missing = [k for k in fields if k not in names]
+    if missing:
+        raise Unsupported(f"struct {ty} has fields {names}, harness expected {sorted(fields)} (no field named {missing})")
+    vals = {names.index(k): v for k, v in fields.items()}
+    extra = [n for n in names if n not in fields]
+    if extra:
+        ftys = dict(prog.types.field_types(ty) or [])
+        for n in extra:
+            v = zero_value(prog, ftys.get(n, '')) if n in ftys else None
+            if v is None:
+                raise Unsupported(f"struct {ty} has a field the harness does not know and cannot default: {n}: {ftys.get(n)}")
+            vals[names.index(n)] = v
+            DEFAULTED_FIELDS.add((ty, n, ftys.get(n)))
+    return Agg(vals, ty.split('::')[-1] if '::' not in ty else ty)
 
 
 def field(prog, v, ty, name):
